@@ -57,17 +57,22 @@ def rand_ir(r, name):
 
 def render(kind, ir, method):
     """source of a file holding the target `kind` with interface `ir`, plus unrelated definitions"""
+    return _render(kind, ir, method, {"word_wrap": False} if ir.get("_long") else {})
+
+
+def _render(kind, ir, method, kw):
+    ir = {k: v for k, v in ir.items() if k != "_long"}
     if kind == "class":
-        body = hops.emit(dict(ir, name="ConfigClass"), "class")[1]
+        body = hops.emit(dict(ir, name="ConfigClass"), "class", **kw)[1]
         return "import os\n\nX = 1\n\n\n%s\n\n\ndef other():\n    return 2\n" % body, "ConfigClass"
     if kind == "function":
         if method:
-            src = hops.emit(dict(ir, name="method"), "function", function_type="self")[1]
+            src = hops.emit(dict(ir, name="method"), "function", function_type="self", **kw)[1]
             return ("class C(object):\n    Z = 3\n\n%s\n\n    def keep(self):\n        return 1\n\n\nW = 5\n" %
                     "\n".join("    " + l if l.strip() else l for l in src.split("\n"))), "C.method"
-        src = hops.emit(dict(ir, name="funky"), "function", function_type="static")[1]
+        src = hops.emit(dict(ir, name="funky"), "function", function_type="static", **kw)[1]
         return "import sys\n\n\ndef before():\n    return 0\n\n\n%s\n\n\nW = 5\n" % src, "funky"
-    src = hops.emit(ir, "argparse")[1]
+    src = hops.emit(ir, "argparse", **kw)[1]
     return "import argparse\n\nY = 2\n\n\n%s\n\n\ndef after_it():\n    return 3\n" % src, "set_cli_args"
 
 
@@ -192,6 +197,14 @@ def run_case(ctx, P, stream, idx):
     files = {"class": "cls.py", "function": "fn.py", "argparse_function": "argp.py"}
     irs = {k: rand_ir(r, "Foo") for k in KINDS}
     truth = r.choice(KINDS)
+    r_long = ctx.rng(stream, idx, "longdoc")
+    if r_long.random() < 0.25:
+        # descriptions longer than any wrap column, written on one line (what a hand-written truth holds): every target
+        # is to carry them as they are
+        for k in KINDS:
+            irs[k]["_long"] = True
+        for p in r_long.sample(list(irs[truth]["params"].values()), min(len(irs[truth]["params"]), r_long.randint(1, 2))):
+            p["doc"] = irgen.rand_doc(r_long, r_long.randint(20, 30), stop=False)
     states = {k: ("truth" if k == truth else r.choice(STATES)) for k in KINDS}
     d = tempfile.mkdtemp(prefix="vcdd-c12-")
     try:
@@ -310,6 +323,18 @@ def run_case(ctx, P, stream, idx):
                             P.deviation("sync.target-order-differs-from-truth|%s" % key_feats,
                                         "after sync --truth %s the %s target lists %r, the truth %r" % (
                                             truth, k, list(got["params"]), truth_order), dict(w, target=k, after=now[k]))
+                    # descriptions, against the truth directly and with their line structure (the comparison above
+                    # collapses whitespace): a target whose description has the truth's words on other lines differs
+                    P.monitor("target.descriptions-vs-truth.compared")
+                    for pn, gp in gold["params"].items():
+                        tp = got["params"].get(pn)
+                        if tp is None or not gp.get("doc") or not tp.get("doc"):
+                            continue
+                        g_, t_ = gp["doc"].strip(), tp["doc"].strip()
+                        if g_ != t_ and " ".join(g_.split()) == " ".join(t_.split()):
+                            P.deviation("sync.target-description-relaid|%s" % key_feats,
+                                        "after sync --truth %s the %s target's description of %s has other line breaks: %r "
+                                        "(truth %r)" % (truth, k, pn, t_, g_), dict(w, target=k, after=now[k], param=pn))
                     P.monitor("target.defaults-vs-truth.compared")
                     if list(got["params"]) == list(gold["params"]):
                         for pn, gp in gold["params"].items():
